@@ -781,7 +781,9 @@ func inParseFloat(fr *frame, a []value) value {
 		case uint8:
 			buf[i] = b
 		case *Term:
-			if b.vs == nil || len(b.vs) > 16 {
+			// the value set over-approximates (an ITE carries the union of its arms); the
+			// enumeration below only visits values feasible under the path condition
+			if b.vs == nil {
 				panic(outOfReach{"ParseFloat of unrestricted symbolic text"})
 			}
 			buf[i] = byte(I.x.concretize(b, "ParseFloat byte"))
@@ -1046,7 +1048,29 @@ func fromNativeJSON(x interface{}) value {
 func inJSONUnmarshal(fr *frame, a []value) value {
 	data := a[0].([]value)
 	if sliceHasSym(data) {
-		panic(outOfReach{"json.Unmarshal of symbolic text"})
+		// a few symbolic bytes from small alphabets: enumerate them (each value a fork) and let the
+		// real decoder run on the concrete document
+		nsym := 0
+		for _, b := range data {
+			if t, ok := b.(*Term); ok {
+				nsym++
+				if t.vs == nil {
+					panic(outOfReach{"json.Unmarshal of symbolic text"})
+				}
+			}
+		}
+		if nsym > 3 {
+			panic(outOfReach{"json.Unmarshal of symbolic text"})
+		}
+		conc := make([]value, len(data))
+		for i, b := range data {
+			if t, ok := b.(*Term); ok {
+				conc[i] = uint8(I.x.concretize(t, "json byte"))
+			} else {
+				conc[i] = b
+			}
+		}
+		data = conc
 	}
 	target := a[1].(iface)
 	ptr, ok := target.v.(*value)
